@@ -147,6 +147,15 @@ func (c AdminController) ChangeBucketOwner(ctx *fiber.Ctx) error {
 	owner := ctx.Query("owner")
 	bucket := ctx.Query("bucket")
 
+	// the bucket name is used as a path by the backend
+	if strings.Contains(bucket, "/") || bucket == "." || bucket == ".." {
+		return SendResponse(ctx, s3err.GetAPIError(s3err.ErrInvalidBucketName),
+			&MetaOpts{
+				Logger: c.l,
+				Action: metrics.ActionAdminChangeBucketOwner,
+			})
+	}
+
 	accs, err := auth.CheckIfAccountsExist([]string{owner}, c.iam)
 	if err != nil {
 		return SendResponse(ctx, err,
